@@ -23,7 +23,38 @@ func factsC06() {
 
 	tc := ""
 	if run != nil {
-		tc = natOrNone(makeChanCap(run, "terminationChannels"))
+		c, ok := makeChanCap(run, "terminationChannels")
+		if !ok {
+			// the map may be built by a helper method of the gateway (`terminationChannels := gw.<helper>(…)`): look for
+			// the element assignment `<map>[…] = make(chan bool[, n])` in that method
+			ast.Inspect(run, func(x ast.Node) bool {
+				as, isAs := x.(*ast.AssignStmt)
+				if !isAs || ok || len(as.Lhs) != 1 || len(as.Rhs) != 1 {
+					return true
+				}
+				if id, isId := as.Lhs[0].(*ast.Ident); !isId || id.Name != "terminationChannels" {
+					return true
+				}
+				call, isCall := as.Rhs[0].(*ast.CallExpr)
+				if !isCall {
+					return true
+				}
+				if sel, isSel := call.Fun.(*ast.SelectorExpr); isSel {
+					if helper := funcDecl(gf, "eventBasedGateway", sel.Sel.Name); helper != nil && helper.Body != nil {
+						ast.Inspect(helper.Body, func(y ast.Node) bool {
+							if ha, isA := y.(*ast.AssignStmt); isA && !ok && len(ha.Lhs) == 1 && len(ha.Rhs) == 1 {
+								if ix, isIx := ha.Lhs[0].(*ast.IndexExpr); isIx {
+									c, ok = makeChanCap(ha, exprString(ix.X))
+								}
+							}
+							return true
+						})
+					}
+				}
+				return true
+			})
+		}
+		tc = natOrNone(c, ok)
 	}
 	add("C06", "ebgTermCap", "Nat", tc,
 		"gateway_event_based.go run: capacity of terminationChannels[*idPtr] = make(chan bool[, n])")
